@@ -353,6 +353,10 @@ def main(pid, tier, seed):
             w['lines'] = [''.join(map(chr, x)) for x in t['lines']][:12]
         verdict.violation(w, 'clause %s; %s' % (clause, core.short({k: m[k] for k in m if k != 'ruleset'}, 200)))
 
+    grid_of_files = None
+    if pid == 'C04':
+        from . import check_loader
+        grid_of_files = check_loader.insertion_stage(verdict)
     if otraces:
         ometa = {t['tid']: t.pop('_meta') for t in otraces}
         ov, ost = core.validate_traces('TrOmen.tla', otraces, chunk=100, timeout=600)
@@ -394,7 +398,7 @@ def main(pid, tier, seed):
         'evaluations': len(traces), 'distinct_nontrivial': distinct,
         'rule': 'pt trace = one real create_guesses call on one pre-terminal; limit trace = one real run with --limit N '
                 '(in-process session or CLI subprocess); non-trivial = more than one line; distinct by groups/N/lines',
-        'trace_kinds': kinds, 'pre_terminals_of_the_shipped_ruleset_expanded': n_shipped_pts, 'rulesets': len(rule_dirs), 'cli_runs': cli_runs,
+        'trace_kinds': kinds, 'every_alpha_variable_gets_its_mask': grid_of_files, 'pre_terminals_of_the_shipped_ruleset_expanded': n_shipped_pts, 'rulesets': len(rule_dirs), 'cli_runs': cli_runs,
         'model_pt_space_instantiated': cat['NPT'],
         'impl_conformance': {'traces': kinds.get('gen', 0), 'result': 'drift' if drift else 'conforms',
                              'drift_examples': [core.short(d, 300) for d in drift[:3]]},
